@@ -1054,10 +1054,18 @@ package memberlist
 //@   at call (*Memberlist).sendAndReceiveState: set $sarErr := res2
 //@   at call (*Memberlist).mergeRemoteState: assert only-after-full-read [C09]: $sarErr == 0
 
+//@ ghost $replyType int
+//@ ghost $replyErr int
+//@ ghost $stateErr int
 //@ func (*Memberlist).sendAndReceiveState(m, a, join)
 //@   safety [C09,C20]
 //@   modular
 //@   requires ok: mlNet(m)
+//@   at call (*Memberlist).readStream: set $replyType := res0
+//@   at call (*Memberlist).readStream: set $replyErr := res3
+//@   at call (*Memberlist).readStream: set $stateErr := 1
+//@   at call (*Memberlist).readRemoteState: set $stateErr := res3
+//@   ensures-internal only-a-state-is-success [C09]: result2 == nil && !(a.Name == "" && m.config.RequireNodeNames) ==> $replyErr == 0 && $replyType == pushPullMsg && $stateErr == 0     // a refusal (error reply), any other reply, and a state that does not read in full are all failures of the exchange, never an empty state
 
 // ---------------------------------------------------------------------
 // C16: label header codec and label isolation
